@@ -206,6 +206,8 @@ def run_job(cfg, job, tier, want_trace=False, only_property=None):
     mode = job.get("mode", "direct")
     r = {"job": job["id"], "mode": mode, "obligations": [], "solver_s": 0.0, "status": "undecided", "note": "", "backend": "cbmc 6.11 / MiniSat (SAT)"}
     timeout = int(job.get("timeout", JOB_TIMEOUT[tier]))
+    if mode == "native":
+        return run_job_native(cfg, job, r, tier)
     if mode == "direct" and job.get("loops"):
         # direct harness + loop contracts: needs the entry point at compile time, then goto-instrument --apply-loop-contracts
         tag = hashlib.md5((job["id"] + " ".join(defs)).encode()).hexdigest()[:8]
@@ -297,6 +299,44 @@ def run_job(cfg, job, tier, want_trace=False, only_property=None):
     r["status"] = "done"
     return r
 
+import threading
+NATIVE_BUILD_LOCK = threading.Lock()
+
+def run_job_native(cfg, job, r, tier):
+    """Bounded stand-in: the contract is compiled as plain C++ next to the REAL function and evaluated natively over a stated finite range.
+    Never counted as proved (job attribute bounded=... is mandatory).  Output protocol of the program:
+       RESULT <name> evaluations=<n> failures=<k> range=<text>      and for failures      FAIL <name> <input description>"""
+    r["backend"] = "native exhaustive evaluation (g++ -O2) of the contract on the real code"
+    if not job.get("bounded"):
+        r["note"] = "native job without a stated bound"; return r
+    bdir = os.path.join(BUILD, cfg["name"]); os.makedirs(bdir, exist_ok=True)
+    src = os.path.join(cfg["dir"], job.get("src", "native.cpp")); exe = os.path.join(bdir, "native_" + os.path.splitext(os.path.basename(src))[0])
+    with NATIVE_BUILD_LOCK:
+        stamp = exe + ".ok." + repo_tree_hash() + "." + hashlib.md5(open(src, "rb").read()).hexdigest()[:8]
+        if not os.path.exists(stamp):
+            cmd = ["g++", "-std=c++17", "-O2", "-w", "-I" + REPO + "/include", "-I" + REPO + "/src", "-I" + VERIF, src, "-o", exe]
+            rc, out, err, dt = run(cmd, timeout=1200, nolimit=True)
+            if rc != 0:
+                r["note"] = "native build failed: " + (out + err)[-2000:]; return r
+            open(stamp, "w").write("")
+    rc, out, err, dt = run([exe, job["entry"], tier], timeout=int(job.get("timeout", JOB_TIMEOUT[tier])), nolimit=True)
+    r["solver_s"] = round(dt, 2); r["cmd"] = exe + " " + job["entry"] + " " + tier
+    if rc == -9:
+        r["note"] = "native run timeout"; return r
+    found = False
+    for line in out.split("\n"):
+        m = re.match(r"RESULT (\S+) evaluations=(\d+) failures=(\d+) range=(.*)", line)
+        if m:
+            found = True
+            fails = [l for l in out.split("\n") if l.startswith("FAIL " + m.group(1) + " ")][:3]
+            desc = "%s: %s [bounded: %s evaluations over %s]" % (",".join(job["props"]), job.get("desc", m.group(1)).replace("_", " "), m.group(2), m.group(4))
+            r["obligations"].append({"name": job["entry"] + "." + m.group(1), "desc": desc, "status": "SUCCESS" if m.group(3) == "0" else "FAILURE", "class": "contract", "props": job["props"],
+                                     "loc": src, "native_fail": fails, "evaluations": int(m.group(2))})
+    if not found:
+        r["note"] = "native program produced no RESULT line (rc=%d): %s" % (rc, (out + err)[-500:]); return r
+    r["status"] = "done"
+    return r
+
 def run_job_cvc5int(cfg, job, r, binary, fn_args, flags, timeout):
     """SMT route for arithmetic chains: CBMC generates the verification conditions (bit-vector SMT-LIB2), cvc5 decides them after
     translating bit-vectors to integer arithmetic (--solve-bv-as-int=sum).  One query for all obligations; on sat/unknown one query each."""
@@ -329,7 +369,7 @@ def run_job_cvc5int(cfg, job, r, binary, fn_args, flags, timeout):
             return "error:" + (out + err)[-300:]
         if "(check-sat" not in open(f).read():
             return "unsat"      # CBMC generated no verification condition for these obligations (discharged by simplification)
-        rc, out, err, dt = run(["cvc5", "--solve-bv-as-int=sum", f], timeout=timeout)
+        rc, out, err, dt = run(["cvc5", "--solve-bv-as-int=sum", f], timeout=int(job.get("qtimeout", 120)))
         first = (out.strip().split("\n") or [""])[0].strip()
         if rc == -9:
             return "timeout"
@@ -453,6 +493,11 @@ def make_replay(cfg, job, ob, prop, tier):
     os.makedirs(rdir, exist_ok=True)
     hid = hashlib.md5((job["id"] + (ob["name"] or "") + (ob["desc"] or "")).encode()).hexdigest()[:8]
     rfile = os.path.join(rdir, "%s-%s-%s.json" % (cfg["name"], job["entry"], hid))
+    if job.get("mode") == "native":
+        doc = {"property": prop, "target": cfg["name"], "job": job["id"], "entry": job["entry"], "obligation": ob["name"], "description": ob["desc"], "location": ob["loc"],
+               "inputs": {}, "failing_inputs_on_real_code": ob.get("native_fail", []), "checker_cmd": "native exhaustive evaluation on the real code", "confirmed": True, "native_replay": "reproduced"}
+        json.dump(doc, open(rfile, "w"), indent=1)
+        return rfile, True
     inputs = {}; cbmc_out = ""; tr = {}
     # counterexample extraction: first under the target's "small counterexample" define (materialisable inputs), then unconstrained
     attempts = []
@@ -589,6 +634,10 @@ def run_and_report(prop, tier, targets, jobs, t0, extra_cov=None, extra_assumpti
                 continue
             if ob["class"] == "ignored":
                 continue
+            if ".no-body." in (ob["name"] or ""):
+                if ob["status"] != "SUCCESS":
+                    undecided.append({"job": job["id"], "why": "call of a function without body or contract (model missing): " + ob["name"]})
+                continue
             if ob["class"] == "internal":
                 if ob["status"] == "FAILURE":
                     undecided.append({"job": job["id"], "why": "harness-internal check failed: %s %s" % (ob["name"], ob["desc"])})
@@ -621,7 +670,8 @@ def run_and_report(prop, tier, targets, jobs, t0, extra_cov=None, extra_assumpti
             else:
                 violations.append((job, ob))
         if job.get("bounded"):
-            bounded.append({"job": job["id"], "bound": job["bounded"], "solver_s": r["solver_s"]})
+            bounded.append({"job": job["id"], "bound": job["bounded"].replace("_", " "), "solver_s": r["solver_s"], "evaluations": sum(o.get("evaluations", 0) for o in r["obligations"]),
+                            "failures": [o["name"] for o in r["obligations"] if o["status"] == "FAILURE"], "backend": r["backend"]})
         if not has_canary and job.get("canary", "on") != "off":
             canaries["vacuous"].append(job["id"] + " (no canary present)")
         per_job.append({"job": job["id"], "mode": "R1 goto-instrument --dfcc + cbmc" if job.get("mode") == "dfcc" else "R2 direct harness + cbmc", "obligations": jn, "discharged": jd,
